@@ -289,10 +289,10 @@ class Differ:
                         for y in b[1][j1:j2]:
                             if s.head(x, s.A).split(":")[-1] == s.head(y, s.B).split(":")[-1] or (x[0] == "opt") != (y[0] == "opt"):
                                 s.cmp(x[1] if x[0] == "opt" and y[0] != "opt" else x, y[1] if y[0] == "opt" and x[0] != "opt" else y, where + "/%s~" % k, ra, rb); break
-# equivalences confirmed by reading (one line of reason each)
+# table equivalences: shape pairs the differ treats as one token; each has a machine-checked side condition in r_C24
 EQUIV = {
     ("string_value", "STRING"): "two quoted-string regexes as alternatives vs one regex with the same two branches (branch order irrelevant: first characters differ)",
-    ("re_match", "ReMatch"): "one regex /…/ vs '/' body '/' — same language; only leading whitespace inside the slashes is skipped differently (model value, not acceptance)",
+    ("re_match", "ReMatch"): "one regex /…/ vs '/' body '/': equal only if the body token cannot run into the closing slash (checked: lookahead in the body or the no-eat condition, r_C24) and the flattened regexes have the same language (checked by automaton product)",
 }
 def _check_arpeggio_choice():
     """N1 relies on OrderedChoice._parse accepting an alternative only if its result is not None"""
@@ -340,18 +340,63 @@ def r_C24(root):
         w(("ref", start)); return acc
     # machine-checked side conditions of the two remaining table equivalences (EQUIV)
     from sa import rx as _rx
+    import re as _re_, re._parser as _sre, re._constants as _sc
+    def _split_lookahead(pat):
+        """(core pattern without a trailing positive lookahead for a literal, that literal or None); the core is rebuilt only
+        when the lookahead is the last item of the pattern, which is recognised on the parsed regex"""
+        try: items = list(_sre.parse(pat))
+        except Exception: return pat, None
+        if items and items[-1][0] is _sc.ASSERT and items[-1][1][0] == 1 and all(op is _sc.LITERAL for op, _a in items[-1][1][1]):
+            lit = "".join(chr(a) for _op, a in items[-1][1][1])
+            k = pat.rfind("(?=")
+            if k != -1 and pat.endswith(")"): return pat[:k], lit
+        return pat, None
+    def _eats(pat, nxt):
+        """PEG: a regex terminal is matched on its own, the next terminal is tried where it stopped.  Can a (greedy) match of
+        `pat` run into the literal `nxt` that should follow it?  i.e. is there x in L(pat) such that x + nxt is a prefix of a
+        longer match.  Returns a witness x or None."""
+        a = _rx.Nfa(pat); reps = _rx.representatives([a])
+        start = a.closure({a.start}); seen = {start: ""}; queue = [start]
+        while queue:
+            S = queue.pop(0)
+            if a.accept in S:
+                T = S
+                for ch in nxt:
+                    T = a.step(T, ch)
+                    if not T: break
+                if T: return seen[S]
+            for ch in reps:
+                T = a.step(S, ch)
+                if T and T not in seen: seen[T] = seen[S] + ch; queue.append(T)
+        return None
     def _flat_re(t):
-        """regex source of a term built from regex terminals, string literals, sequence and ordered choice; else None"""
-        import re as _re_
+        """regex source with the same PEG language as a term built from regex terminals, string literals, sequence and ordered
+        choice; else None.  A sequence `re X, lit c` is flattened to X c only if X cannot run into c (or X ends in a lookahead for c,
+        which makes the regex engine stop exactly where the flattened regex does)."""
         if t[0] == "re": return "(?:%s)" % t[1]
         if t[0] == "lit": return _re_.escape(t[1])
         if t[0] == "seq":
-            ps = [_flat_re(x) for x in t[1]]; return None if None in ps else "".join(ps)
+            ps = []
+            for k, x in enumerate(t[1]):
+                if x[0] == "re" and k + 1 < len(t[1]) and t[1][k + 1][0] == "lit":
+                    core, la = _split_lookahead(x[1]); nxt = t[1][k + 1][1]
+                    if la is not None and nxt.startswith(la): ps.append("(?:%s)" % core); continue
+                    w = _eats(x[1], nxt)
+                    if w is not None: raise _NotExact("the token /%s/ can run into the following %r (e.g. after %r): as separate PEG terminals the sequence rejects input that one regex for the whole token accepts" % (x[1], nxt, w), w + nxt)
+                p_ = _flat_re(x)
+                if p_ is None: return None
+                ps.append(p_)
+            return "".join(ps)
         if t[0] == "alt":
             ps = [_flat_re(x) for x in t[1]]; return None if None in ps else "(?:%s)" % "|".join(ps)
         return None
+    class _NotExact(Exception):
+        def __init__(s, msg, w): s.msg, s.w = msg, w
     for (ra, rb) in sorted(EQUIV):
-        pa, pb = (_flat_re(A[ra]) if ra in A else None), (_flat_re(B[rb]) if rb in B else None)
+        try: pa, pb = (_flat_re(A[ra]) if ra in A else None), (_flat_re(B[rb]) if rb in B else None)
+        except _NotExact as e:
+            d.paired.add((ra, rb, "language"))
+            out.append(Finding("C24", "C24.a", "textx/textx.tx", "%s ~ %s" % (ra, rb), "token sequence vs single regex", e.msg, witness=e.w)); continue
         if pa is None or pb is None:
             out.append(Finding("C24", "C24.a", "textx/textx.tx", "%s ~ %s" % (ra, rb), "shape", "the table equivalence %s ~ %s (%s) no longer has the regex-only shape it was confirmed for" % (ra, rb, EQUIV[(ra, rb)]))); continue
         try: eq, w = _rx.compare(pa, pb)
